@@ -5,6 +5,7 @@
 #[cfg(feature = "std")]
 extern crate std;
 use tls_parser::*;
+mod generated;
 
 fn ok<T: Send + Sync>() {}
 
